@@ -159,8 +159,9 @@ def _worker(mod, tier, seed, flavour, k, nw, skip, journal, outpath, maxviol):
         os.write(jfd, b'done %d\n' % (idx + 1))
     d = agg.todict()
     d['total'] = idx + 1
-    with open(outpath, 'w') as f:
+    with open(outpath + '.tmp', 'w') as f:
         f.write(jdump(d))
+    os.replace(outpath + '.tmp', outpath)      # atomic: a worker dying while it writes leaves no result file
     os.close(jfd)
 
 
